@@ -72,6 +72,10 @@ CLAIMED = {
    text='Profile.tla (on top of Demand.tla): for every chain program TLC enumerates, the number of examples fetched from stage s is the size of the request the demand-propagation machine sends to stage s (the machine that C08 validates against real call logs). Every program is observed plain and under ProfilingDataset on the real library - iteration twice, len, ds[i] for all i incl. errors -, the original object graph is compared before / after wrapping, and the hit counters of every wrapper are read after a full iteration, after taking k results for every k, and after ds[i] for every i; TLC judges transparency, untouched, and hits = fetches (failed fetches apart).',
    note='Chain programs incl. single-thread prefetch; chains with two batch stages are judged for transparency only (index-mode batches over-fetch by probing). Pool prefetch behind the wrapper is not in the family.',
    tech='TLA+ demand machine as fetch-count oracle, TLC enumeration + trace validation'),
+ 'C19': dict(engine='database', cat='model_checking', ref='DESIGN.md section 6 C19',
+   text='Database.tla transcribes _merge_database_dicts, get_examples (alias union, overlap assert, augmentation on copies), _get_dataset (list recursion, weak memo), the alias property and JsonDatabase pickling, next to a statement-level reference; state machine over request histories (name / alias / list / repeat / Release / pickle round trip). TLC enumerates description families (contents, layouts over 1..3 merged parts with and without alias sections and extra keys, duplicates) x histories and checks the design; every behaviour is executed on the real DictDatabase and JsonDatabase (identity via weak references, Release = del + gc.collect(), deep comparison of the source dicts) and TLC judges ExamplesExact, AliasIsConcat, ListIsConcat, SourceUntouched, SharedWhileAlive, DuplicatesRejected, MergeTotal, PickledAgrees on the real observations.',
+   note='A missing alias section is read as equivalent to an empty one (the alias property adds an empty section to the source dict). Empty datasets / unknown names / asserts on later parts are documented refusals, outside the statement.',
+   tech='TLA+ model of the database layer, TLC enumeration + replay + trace validation'),
 }
 
 PENDING_REASON = 'check not built yet in this round (specification planned in DESIGN.md section 6); will be claimed when its check exists'
@@ -119,6 +123,8 @@ def main():
              'kind_free_text': 'DiskCache.tla / DiskCacheTrace.tla + harness/check_diskcache.py'},
             {'name': 'random', 'path': '/verif/specs/Random.tla', 'serves_properties': ['C12', 'C13'],
              'kind_free_text': 'Random.tla / Seeds.tla + trace specs + harness/check_random.py, check_seeds.py'},
+            {'name': 'database', 'path': '/verif/specs/Database.tla', 'serves_properties': ['C19'],
+             'kind_free_text': 'Database.tla / DatabaseTrace.tla + harness/check_database.py'},
             {'name': 'shards', 'path': '/verif/specs/Shards.tla', 'serves_properties': ['C15'],
              'kind_free_text': 'Shards.tla / ShardsTrace.tla + harness/check_shards.py'},
             {'name': 'bucket', 'path': '/verif/specs/Bucket.tla', 'serves_properties': ['C17'],
